@@ -133,4 +133,32 @@ def vennDefaults (sorters : List (List Spike)) (sbin cbin fs nch chunk : Nat) : 
 def regionSum (k j : Nat) (res : List Nat) : Nat :=
   (((List.range (2 ^ k - 1)).filter (fun r => (r + 1).testBit (k - 1 - j))).map (fun r => res.getD r 0)).sum
 
+/-! ### The same dictionary without chunks (for chunk sizes that are whole multiples of the sample bin size)
+
+`Lemmas/C20VennChunks.lean` proves that `venn … (c * sbin)` returns exactly `vennGlobal`'s list, for every `c`. -/
+
+/-- Number of peeling levels of one `bin_counts` column that increment region `r + 1`. -/
+def phi (r : Nat) (cs : List Nat) : Nat :=
+  (List.range (maxL cs)).countP (fun i => code (maxL cs - i) cs == r + 1)
+
+/-- The `bin_counts` column of the GLOBAL bin `(xg, yg)`: per sorter, the number of its spikes with
+`sample // sbin = xg` and `channel // cbin = yg`.  No chunk size in sight. -/
+def colG (sorters : List (List Spike)) (sbin cbin xg yg : Nat) : List Nat :=
+  sorters.map (fun sp => sp.countP (fun p => p.1 / sbin == xg && p.2 / cbin == yg))
+
+/-- Region `r + 1`'s count as a sum over the global bin grid `[0, X) × [0, ny)`. -/
+def globalCount (sorters : List (List Spike)) (sbin cbin ny X r : Nat) : Nat :=
+  ((List.range ny).map (fun y => ((List.range X).map (fun xg => phi r (colG sorters sbin cbin xg y))).sum)).sum
+
+/-- The dictionary computed on the global bin grid; `ValueError` for an empty sorter or a channel beyond the last
+channel bin (the two ways `_spikes_venn` raises). -/
+def vennGlobal (sorters : List (List Spike)) (sbin cbin nch : Nat) : Res (List Nat) :=
+  if sbin = 0 ∨ cbin = 0 then .err "domain" else
+  match maxSample sorters with
+  | none => .err "ValueError"
+  | some mx =>
+    if sorters.any (fun sp => sp.any (fun p => decide (nScale nch cbin ≤ p.2 / cbin))) then .err "ValueError"
+    else .ok ((List.range (2 ^ sorters.length - 1)).map
+      (fun r => globalCount sorters sbin cbin (nScale nch cbin) (mx / sbin + 1) r))
+
 end IblVerif.Venn
